@@ -1,48 +1,137 @@
 import XPathV.Model.Api
 import XPathV.Lemmas.Facts
+import XPathV.Lemmas.RootedPlans
+import XPathV.Lemmas.Compose
 /-!
 # C13 — absolute paths ignore the start node; relative paths compose with the context
+
+Property-level theorems.  The proofs are in `Lemmas/RootedPlans.lean` (start-node independence of
+rooted plans, by induction on plans) and `Lemmas/Compose.lean` (composition on the oracle side, on
+the model side through `C01_main`, and the wrapper identities).
+
+Fragment: `PathPF` = predicate-free location paths over the 12 axes (any node test);
+`AbsPF` = those whose leaf is `/`; `RelPF` = those whose leaf is the context node.
+`appendPath q p` is the parse tree of `q/p`.
 -/
 namespace XPathV.Theorems.C13
-open XPathV XPathV.Model XPathV.Facts NumAlg
+open XPathV XPathV.Model XPathV.Facts XPathV.PathSem XPathV.Compose NumAlg
 
 variable {F : Type} [NumAlg F]
 
-/-- a plan is *rooted* when every read of the context outside predicates goes through
-`absoluteQuery` -/
-def Rooted : Plan → Bool
-  | .absolute => true
-  | .child _ i | .cachedChild _ i | .attr _ i | .parent _ i | .self _ i | .descendant _ _ i | .ancestor _ _ i
-  | .following _ _ i | .preceding _ _ i | .descOverDesc _ _ i | .group i | .transform _ i => Rooted i
-  | .union l r => Rooted l && Rooted r
-  | _ => false
-
-/-- **start-node independence**: a rooted plan yields the same sequence from every start node -/
-theorem abs_start_indep (d : Doc) (cfg : ECfg) (p : Plan) (h : Rooted p = true) (c₁ c₂ : Ref) :
-    sel (F := F) d cfg p c₁ = sel (F := F) d cfg p c₂ := by
-  induction p with
-  | absolute => simp [sel]
-  | child a i ih | cachedChild a i ih | attr a i ih | parent a i ih | self a i ih | group i ih =>
-    simp only [Rooted] at h; simp only [sel, ih h]
-  | descendant a s i ih | ancestor a s i ih | following a s i ih | preceding a s i ih | descOverDesc a s i ih | transform n i ih =>
-    simp only [Rooted] at h; simp only [sel, ih h]
-  | union l r ihl ihr =>
-    simp only [Rooted, Bool.and_eq_true] at h
-    simp only [sel, ihl h.1, ihr h.2]
-  | _ => simp [Rooted] at h
+/-- **start-node independence (model, every rooted plan)**: a plan in which every read of the
+context outside predicates goes through `absoluteQuery` yields the same sequence from every start
+node -/
+theorem abs_start_indep (d : Doc) (cfg : ECfg) (p : Plan) (h : RootedPlans.Rooted p = true) (c₁ c₂ : Ref) :
+    sel (F := F) d cfg p c₁ = sel (F := F) d cfg p c₂ :=
+  RootedPlans.abs_start_indep d cfg p h c₁ c₂
 
 /-- wrapping in parentheses preserves the node sequence -/
 theorem group_preserves_sequence (d : Doc) (cfg : ECfg) (p : Plan) (c : Ref) (ins : List Item)
     (h : sel (F := F) d cfg p c = .ok ins) :
-    (sel (F := F) d cfg (.group p) c).map (fun o => o.map (·.r)) = .ok (ins.map (·.r)) := by
-  simp [sel, h, bind, Except.bind, numbered, Except.map, List.map_map, Function.comp_def]
+    (sel (F := F) d cfg (.group p) c).map (fun o => o.map (·.r)) = .ok (ins.map (·.r)) :=
+  RootedPlans.group_preserves_sequence d cfg p c ins h
 
 /-- the steps of a relative path compose: a child step over an input is the concatenation of the
-child steps from each input node (the denotation of a path is the union over its prefix) -/
+child steps from each input node -/
 theorem rel_compose_child (d : Doc) (cfg : ECfg) (a : AxisInfo) (inp : Plan) (c : Ref) (ins : List Item)
     (h : sel (F := F) d cfg inp c = .ok ins) :
     (sel (F := F) d cfg (.child a inp) c).map (fun o => o.map (·.r)) =
-      .ok (ins.flatMap (fun it => (childrenM d it.r).filter (nodeTestM d cfg a))) := by
-  simp [sel, h, bind, Except.bind, numbered, Except.map, test, List.map_flatMap, List.map_map, Function.comp_def]
+      .ok (ins.flatMap (fun it => (childrenM d it.r).filter (nodeTestM d cfg a))) :=
+  RootedPlans.rel_compose_child d cfg a inp c ins h
+
+/-- **C13, absolute paths (oracle)**: an absolute predicate-free path has the same value in every
+context -/
+theorem C13_absolute_spec (d : Doc) {p : Ast} (hp : AbsPF p) (c₁ c₂ : Spec.Ctx) :
+    Spec.eval (F := F) d p c₁ = Spec.eval (F := F) d p c₂ :=
+  abs_eval_indep d hp c₁ c₂
+
+/-- **C13, absolute paths (model, the plan `build` produces, with every rewrite)**: the same
+*sequence* — or the same failure — from every start node; no assumption on the document, the
+start nodes, the namespace configuration or the hash -/
+theorem C13_absolute_build (d : Doc) (cfg : ECfg) (regexOk : RegexOk) (limit : Nat) (snt sdf : Bool)
+    {p : Ast} (hp : AbsPF p) (fl : Flags) (st : BState) (o : BOut)
+    (h : build regexOk limit snt sdf p fl st = .ok o) (c₁ c₂ : Ref) :
+    sel (F := F) d cfg o.q c₁ = sel (F := F) d cfg o.q c₂ :=
+  abs_build_start_indep d cfg regexOk limit snt sdf hp fl st o h c₁ c₂
+
+/-- **C13, path composition (oracle)**: `x` is selected by `q/p` from context `c` iff it is
+selected by `p` from some node that `q` selects from `c`; any context, any document -/
+theorem C13_compose_spec (d : Doc) {q p : Ast} (hq : PathPF q) (hp : RelPF p) (c : Spec.Ctx) (x : Ref) :
+    x ∈ nodesOf (Spec.eval (F := F) d (appendPath q p) c) ↔
+      ∃ n ∈ nodesOf (Spec.eval (F := F) d q c), x ∈ nodesOf (Spec.eval (F := F) d p ⟨n, 1, 1⟩) :=
+  eval_append d hq hp c x
+
+/-- **C13, relative paths compose with the context (model, built plans)**: if the absolute
+path `q` addresses exactly the node `n`, then the plan `build` makes of the relative path `p`,
+started at `n`, and the plan it makes of `q/p`, started at the root, both succeed and select the
+same node set.  Hypotheses: well-formed document, navigator exposing namespace URIs,
+NoFnvCollision. -/
+theorem C13_relative_compose {d : Doc} (wf : WF d) (cfg : ECfg) (hns : cfg.nsIface = true)
+    (hinj : HashInj d cfg) (regexOk : RegexOk) (limit : Nat) (sdf : Bool)
+    {q p : Ast} (hq : PathPF q) (hp : RelPF p) (n : Ref)
+    (h : nodesOf (Spec.eval (F := F) d q ⟨.node 0, 1, 1⟩) = [n])
+    (st st' : BState) (o o' : BOut)
+    (hb : build regexOk limit true sdf p {} st = .ok o)
+    (hb' : build regexOk limit true sdf (appendPath q p) {} st' = .ok o') :
+    ∃ o1 o2, sel (F := F) d cfg o.q n = .ok o1 ∧ sel (F := F) d cfg o'.q (.node 0) = .ok o2 ∧
+      ∀ x, x ∈ refs o1 ↔ x ∈ refs o2 :=
+  rel_compose_build wf cfg hns hinj regexOk limit sdf hq hp n h st st' o o' hb hb'
+
+/-- … and on the oracle side the two node *lists* are equal (both in document order) -/
+theorem C13_relative_compose_spec (d : Doc) {q p : Ast} (hq : PathPF q) (hp : RelPF p) (c : Spec.Ctx) (n : Ref)
+    (h : nodesOf (Spec.eval (F := F) d q c) = [n]) :
+    nodesOf (Spec.eval (F := F) d p ⟨n, 1, 1⟩) = nodesOf (Spec.eval (F := F) d (appendPath q p) c) :=
+  rel_compose_spec_eq d hq hp c n h
+
+/-- appending an absolute path to anything changes nothing (oracle and model) -/
+theorem C13_absolute_after_anything (d : Doc) (cfg : ECfg) (q : Ast) {p : Ast} (hp : AbsPF p) (c₁ c₂ : Ref) :
+    Spec.eval (F := F) d (appendPath q p) ⟨c₁, 1, 1⟩ = Spec.eval (F := F) d p ⟨c₂, 1, 1⟩ ∧
+    sel (F := F) d cfg (naivePlan (appendPath q p)) c₁ = sel (F := F) d cfg (naivePlan p) c₂ :=
+  abs_append_ignored d cfg q hp c₁ c₂
+
+/-- **wrapper `P[true()]`**: keeps every node, in order; fails exactly when `P` does -/
+theorem C13_wrap_true (d : Doc) (cfg : ECfg) (p : Plan) (c : Ref) :
+    (∀ ins, sel (F := F) d cfg p c = .ok ins →
+      ∃ out, sel (F := F) d cfg (.filter p (.func "true" .nil .pnil)) c = .ok out ∧ refs out = refs ins) ∧
+    (∀ e, sel (F := F) d cfg p c = .error e →
+      sel (F := F) d cfg (.filter p (.func "true" .nil .pnil)) c = .error e) :=
+  ⟨fun ins h => filter_true d cfg p c ins h, fun e h => filter_true_error d cfg p c e h⟩
+
+/-- **wrapper `(P)`**: same node sequence; fails exactly when `P` does -/
+theorem C13_wrap_group (d : Doc) (cfg : ECfg) (p : Plan) (c : Ref) :
+    (∀ ins, sel (F := F) d cfg p c = .ok ins →
+      ∃ out, sel (F := F) d cfg (.group p) c = .ok out ∧ refs out = refs ins) ∧
+    (∀ e, sel (F := F) d cfg p c = .error e → sel (F := F) d cfg (.group p) c = .error e) :=
+  ⟨fun ins h => group_refs d cfg p c ins h, fun e h => group_error d cfg p c e h⟩
+
+/-- **wrapper `P | P`** for a predicate-free path: the model's union and the oracle's union both
+denote exactly the nodes of `P`, without duplicates -/
+theorem C13_wrap_union_self {d : Doc} (wf : WF d) (cfg : ECfg) (hns : cfg.nsIface = true)
+    (hinj : HashInj d cfg) {p : Ast} (hp : PathPF p) (c : Ref) (hc : validRef d c = true) :
+    ∃ out ns, sel (F := F) d cfg (.union (naivePlan p) (naivePlan p)) c = .ok out ∧
+      Spec.eval (F := F) d (.oper "|" p p) ⟨c, 1, 1⟩ = .ok (.val (.nodes ns) none) ∧
+      (∀ x, x ∈ refs out ↔ x ∈ ns) ∧ (refs out).Nodup ∧
+      (∀ x, x ∈ ns ↔ x ∈ nodesOf (Spec.eval (F := F) d p ⟨c, 1, 1⟩)) :=
+  union_self_path wf cfg hns hinj hp c hc
+
+/-- **wrapper `not(not(P))` = `boolean(P)`** at plan level whenever `P` evaluates to a node-set, a
+boolean, or fails (the arguments C07/C13 quantify over) -/
+theorem C13_wrap_not_not (d : Doc) (cfg : ECfg) (fi₁ fi₂ fi₃ : Plan) (P : Plan) (c : Ref)
+    (h : (∃ l, evalP (F := F) d cfg P c = .ok (.nodes l)) ∨ (∃ b, evalP (F := F) d cfg P c = .ok (.bool b)) ∨
+      (∃ e, evalP (F := F) d cfg P c = .error e)) :
+    evalP (F := F) d cfg (.func "not" fi₁ (.pcons (.func "not" fi₂ (.pcons P .pnil)) .pnil)) c =
+      evalP (F := F) d cfg (.func "boolean" fi₃ (.pcons P .pnil)) c :=
+  not_not_plan d cfg fi₁ fi₂ fi₃ P c h
+
+private def stepA (n : String) : AxisInfo := { axis := "child", typeTest := default, pfx := "", lname := n, prop := "", hasNS := false, nsURI := "" }
+
+/-- non-vacuity: `/a/b` is an absolute path, `b` a relative one, and `/a/b` = `appendPath (/a) b` -/
+example : AbsPF (.axis (stepA "b") (.axis (stepA "a") (.root "/"))) ∧
+    RelPF (.axis (stepA "b") .none) ∧
+    appendPath (.axis (stepA "a") (.root "/")) (.axis (stepA "b") .none) =
+      .axis (stepA "b") (.axis (stepA "a") (.root "/")) := by
+  refine ⟨?_, ?_, rfl⟩
+  · exact .axis _ _ (.axis _ _ (.root _) (by decide)) (by decide)
+  · exact .axis _ _ .none (by decide)
 
 end XPathV.Theorems.C13
